@@ -27,7 +27,14 @@ pub enum AOp {
     ManualDespawn(u8),
     Reparent(u8, u8),
     Respawn(u8),
+    /// Moves one clone of the second entity's signal into a component of the first entity: it is dropped when that
+    /// entity is despawned - possibly in the middle of a collection (ownership chains).
+    #[serde(alias = "Attach")]
+    Attach(u8, u8),
 }
+
+#[derive(Component, Default)]
+struct Holder(Vec<AutoDespawnSignal>);
 
 struct Shadow {
     alive: [bool; NENT],
@@ -35,6 +42,10 @@ struct Shadow {
     /// released (all clones dropped) but not yet collected
     pending: Vec<usize>,
     parent: [Option<usize>; NENT],
+    /// signals owned by a component of the entity (indices of the entities they keep alive)
+    held: [Vec<usize>; NENT],
+    /// number of clones released because their owner entity died (chain releases)
+    chain_releases: u32,
 }
 
 impl Shadow {
@@ -44,6 +55,13 @@ impl Shadow {
         }
         self.alive[e] = false;
         self.parent[e] = None;
+        for b in std::mem::take(&mut self.held[e]) {
+            self.clones[b] -= 1;
+            self.chain_releases += 1;
+            if self.clones[b] == 0 {
+                self.pending.push(b);
+            }
+        }
         for c in 0..NENT {
             if self.parent[c] == Some(e) {
                 self.kill_subtree(c);
@@ -73,6 +91,8 @@ pub struct SeqOutcome {
     pub gc_between_drops: u32,
     pub shape: u64,
     pub applied: Vec<String>,
+    /// follow-up collections needed because an entity was released in the middle of a collection
+    pub chain_gcs: u32,
 }
 
 pub fn gen_seq(seed: u64) -> Vec<AOp> {
@@ -81,7 +101,7 @@ pub fn gen_seq(seed: u64) -> Vec<AOp> {
     (0..n)
         .map(|_| {
             let e = r.below(NENT) as u8;
-            match r.below(20) {
+            match r.below(23) {
                 0..=3 => AOp::Prepare(e),
                 4..=7 => AOp::Clone(e),
                 8..=12 => AOp::Drop(e),
@@ -89,7 +109,8 @@ pub fn gen_seq(seed: u64) -> Vec<AOp> {
                 15 => AOp::Update,
                 16 => AOp::ManualDespawn(e),
                 17..=18 => AOp::Reparent(e, r.below(NENT) as u8),
-                _ => AOp::Respawn(e),
+                19 => AOp::Respawn(e),
+                _ => AOp::Attach(e, r.below(NENT) as u8),
             }
         })
         .collect()
@@ -100,13 +121,14 @@ pub fn run_seq(ops: &[AOp]) -> SeqOutcome {
     app.setup_auto_despawn();
     let mut ents: Vec<Entity> = (0..NENT).map(|_| app.world_mut().spawn_empty().id()).collect();
     let mut signals: Vec<Vec<AutoDespawnSignal>> = (0..NENT).map(|_| vec![]).collect();
-    let mut sh = Shadow { alive: [true; NENT], clones: [0; NENT], pending: vec![], parent: [None; NENT] };
+    let mut sh = Shadow { alive: [true; NENT], clones: [0; NENT], pending: vec![], parent: [None; NENT], held: Default::default(), chain_releases: 0 };
     let mut violations = vec![];
     let mut gcs = 0;
     let mut gc_between = 0;
     let mut shape = 0xcbf29ce484222325u64;
     let mut applied = vec![];
     let mut dropped_some = [false; NENT];
+    let mut chain_gcs = 0u32;
     for (i, op) in ops.iter().enumerate() {
         let mut tag = 0u64;
         match op.clone() {
@@ -157,15 +179,36 @@ pub fn run_seq(ops: &[AOp]) -> SeqOutcome {
                     violations.push(("C10/gc-panicked".to_string(), format!("op {i} {:?} panicked", op)));
                     std::mem::forget(app);
                     std::mem::forget(signals);
-                    return SeqOutcome { violations, gcs, gc_between_drops: gc_between, shape, applied };
+                    return SeqOutcome { violations, gcs, gc_between_drops: gc_between, shape, applied, chain_gcs };
                 }
                 gcs += 1;
                 if (0..NENT).any(|e| sh.clones[e] > 0 && dropped_some[e]) {
                     gc_between += 1;
                 }
-                let pend = std::mem::take(&mut sh.pending);
-                for e in pend {
-                    sh.kill_subtree(e);
+                // Entities released *during* a collection (their last clone was owned by an entity that collection
+                // despawned) are only guaranteed to go with the next collection: run one more per level of the chain.
+                let mut rounds = 0;
+                loop {
+                    let pend = std::mem::take(&mut sh.pending);
+                    if pend.is_empty() {
+                        break;
+                    }
+                    for e in pend {
+                        sh.kill_subtree(e);
+                    }
+                    rounds += 1;
+                    if !sh.pending.is_empty() {
+                        chain_gcs += 1;
+                        if std::panic::catch_unwind(std::panic::AssertUnwindSafe(|| garbage_collect_entities(app.world_mut()))).is_err() {
+                            violations.push(("C10/gc-panicked".to_string(), format!("op {i} {:?}: follow-up collection panicked", op)));
+                            std::mem::forget(app);
+                            std::mem::forget(signals);
+                            return SeqOutcome { violations, gcs, gc_between_drops: gc_between, shape, applied, chain_gcs };
+                        }
+                    }
+                    if rounds > NENT + 1 {
+                        break;
+                    }
                 }
                 tag = 6 + (op == &AOp::Update) as u64;
             }
@@ -183,6 +226,19 @@ pub fn run_seq(ops: &[AOp]) -> SeqOutcome {
                     app.world_mut().entity_mut(ents[c]).set_parent(ents[p]);
                     sh.parent[c] = Some(p);
                     tag = 9;
+                }
+            }
+            AOp::Attach(a, b) => {
+                let (a, b) = (a as usize, b as usize);
+                if sh.alive[a] && !signals[b].is_empty() {
+                    let s = signals[b].pop().unwrap();
+                    let mut em = app.world_mut().entity_mut(ents[a]);
+                    if !em.contains::<Holder>() {
+                        em.insert(Holder::default());
+                    }
+                    em.get_mut::<Holder>().unwrap().0.push(s);
+                    sh.held[a].push(b);
+                    tag = 11;
                 }
             }
             AOp::Respawn(e) => {
@@ -209,26 +265,36 @@ pub fn run_seq(ops: &[AOp]) -> SeqOutcome {
                     format!("C10/{what}"),
                     format!("after op {i} {:?}: entity slot {e} is {} but the model says {} (clones {})", op, if real { "alive" } else { "gone" }, if sh.alive[e] { "alive" } else { "gone" }, sh.clones[e]),
                 ));
-                return SeqOutcome { violations, gcs, gc_between_drops: gc_between, shape, applied };
+                return SeqOutcome { violations, gcs, gc_between_drops: gc_between, shape, applied, chain_gcs };
             }
         }
     }
     // release everything: after a final collection every prepared entity is gone
     for e in 0..NENT {
         if !signals[e].is_empty() {
+            sh.clones[e] -= signals[e].len();
             signals[e].clear();
-            sh.clones[e] = 0;
-            sh.pending.push(e);
+            if sh.clones[e] == 0 {
+                sh.pending.push(e);
+            }
         }
     }
     if std::panic::catch_unwind(std::panic::AssertUnwindSafe(|| garbage_collect_entities(app.world_mut()))).is_err() {
         violations.push(("C10/gc-panicked".to_string(), "the final collection panicked".to_string()));
         std::mem::forget(app);
-        return SeqOutcome { violations, gcs, gc_between_drops: gc_between, shape, applied };
+        return SeqOutcome { violations, gcs, gc_between_drops: gc_between, shape, applied, chain_gcs };
     }
-    let pend = std::mem::take(&mut sh.pending);
-    for e in pend {
-        sh.kill_subtree(e);
+    for _ in 0..NENT + 1 {
+        let pend = std::mem::take(&mut sh.pending);
+        if pend.is_empty() {
+            break;
+        }
+        for e in pend {
+            sh.kill_subtree(e);
+        }
+        if !sh.pending.is_empty() {
+            garbage_collect_entities(app.world_mut());
+        }
     }
     for e in 0..NENT {
         let real = app.world().get_entity(ents[e]).is_ok();
@@ -236,7 +302,7 @@ pub fn run_seq(ops: &[AOp]) -> SeqOutcome {
             violations.push(("C10/final-state".to_string(), format!("entity slot {e}: real alive={real}, model alive={}", sh.alive[e])));
         }
     }
-    SeqOutcome { violations, gcs, gc_between_drops: gc_between, shape, applied }
+    SeqOutcome { violations, gcs, gc_between_drops: gc_between, shape, applied, chain_gcs }
 }
 
 //-------------------------------------------------------------------------------------------------------------------
@@ -543,12 +609,14 @@ pub fn run_check(cfg: &C10Config) -> (usize, Option<String>) {
     let mut shapes = BTreeSet::new();
     let mut gcs = 0u64;
     let mut gc_between = 0u64;
+    let mut gc_chain = 0u64;
     let mut samples = vec![];
     for k in 0..cfg.sequences {
         let ops = gen_seq(cfg.seed.wrapping_mul(104729).wrapping_add(k as u64));
         let o = run_seq(&ops);
         gcs += o.gcs as u64;
         gc_between += o.gc_between_drops as u64;
+        gc_chain += o.chain_gcs as u64;
         if o.gc_between_drops > 0 {
             shapes.insert(o.shape);
             if samples.len() < 2 {
@@ -625,12 +693,13 @@ pub fn run_check(cfg: &C10Config) -> (usize, Option<String>) {
         "coverage": {
             "evaluations": cfg.sequences + cfg.trials,
             "distinct_nontrivial": distinct,
-            "rule": "single-threaded: seeded sequences of prepare/clone/drop/gc/App::update/manual-despawn/reparent/respawn over 6 entities checked after every op against an exact reference-count + hierarchy model; non-trivial = a collection ran while some but not all clones of an entity had been dropped; distinct = distinct applied-op shapes. threaded: 2-15 workers drop/clone 1-50 signals per entity with seeded spins/yields while the main thread collects; judged with two atomic counters (pre <= real count <= post); distinct = distinct per-entity histories of (clone-count bucket, liveness) across collections per thread count. rendezvous: per round 64 entities whose last 2-4 clones are held by 2-4 threads that meet at a spin barrier per entity and drop together while the main thread collects; every entity (and child) must be gone after the final collection; the number of entities whose drop calls really overlapped is measured",
+            "rule": "single-threaded: seeded sequences of prepare/clone/drop/gc/App::update/manual-despawn/reparent/respawn/attach (a clone moved into a component of another entity, so that it is dropped when that entity is despawned, possibly in the middle of a collection) over 6 entities checked after every op against an exact reference-count + hierarchy model; non-trivial = a collection ran while some but not all clones of an entity had been dropped; distinct = distinct applied-op shapes. threaded: 2-15 workers drop/clone 1-50 signals per entity with seeded spins/yields while the main thread collects; judged with two atomic counters (pre <= real count <= post); distinct = distinct per-entity histories of (clone-count bucket, liveness) across collections per thread count. rendezvous: per round 64 entities whose last 2-4 clones are held by 2-4 threads that meet at a spin barrier per entity and drop together while the main thread collects; every entity (and child) must be gone after the final collection; the number of entities whose drop calls really overlapped is measured",
             "samples": samples,
             "single_threaded_sequences": cfg.sequences,
             "single_threaded_collections": gcs,
             "single_threaded_collections_between_drops": gc_between,
             "single_threaded_distinct_shapes": shapes.len(),
+            "single_threaded_collections_during_which_a_despawned_owner_released_another_entity": gc_chain,
             "threaded_trials": cfg.trials,
             "threaded_collections": t_gcs,
             "threaded_collections_between_first_and_last_drop": t_between,
